@@ -48,7 +48,7 @@ fn same_aff_fn(rep: &mut Report, idx: u64, what: &str, got: &AffFunc, want: &dyn
 // ------------------------------------------------------------------------------------------ C16
 
 pub fn aff_algebra(rep: &mut Report, tier: Tier) {
-    let cases = if tier == Tier::Quick { 300 } else { 5000 };
+    let cases = if tier == Tier::Quick { 1500 } else { 30000 };
     rep.rule = "seeded affine functions (coefficients in {-1,0,1,2}) of all shapes up to 3x3: compose, stack, + - * / % in every ownership variant, negation, row, row_iter, remove_rows, remove_zero_rows, remove_zero_columns, from_row_iter, view/to_owned, function<->polytope conversions incl. every PolyRepr, and every named constructor in dims 1..=3, compared with the exact rational evaluation of the defining identity on the half-integer lattice; non-trivial: every case (distinct operands)".into();
     rep.bound = format!("{cases} seeded operand sets, dims 1..=3 (lattice [-3,3]^d step 1/2; d=3 only for constructors on a coarser sub-lattice)");
     for idx in 1..=cases as u64 {
@@ -335,7 +335,7 @@ fn check_set(rep: &mut Report, idx: u64, name: &str, got: &Polytope, dim: usize,
 }
 
 pub fn poly_ops(rep: &mut Report, tier: Tier) {
-    let cases = if tier == Tier::Quick { 300 } else { 5000 };
+    let cases = if tier == Tier::Quick { 1500 } else { 30000 };
     rep.rule = "seeded polytopes (<= 3 rows incl. zero rows) and arguments: intersection, intersection_n, translate, apply_pre, apply_post / rotate with invertible / orthogonal matrices from a pool, and the constructors unbounded, empty, hypercube, hyperrectangle, axis_bounds (with infinite bounds), cross_polytope, from_normal, simplex (vertex/containment facts); exact membership of the result vs membership of the pre-image on the half-integer lattice (boundary points included); contains()/distance_raw()/distance() vs exact; non-trivial: every case".into();
     rep.bound = format!("{cases} seeded operand sets, dims in {{1,2}}");
     let inv_pool: Vec<([[f64; 2]; 2], [[f64; 2]; 2])> = vec![
@@ -600,6 +600,7 @@ pub fn schemas(rep: &mut Report, tier: Tier) {
                 rep.evaluations += 1;
                 let descr = format!("dim={dim} row={row}");
                 rep.nontrivial(&format!("{name}{descr}"));
+                rep.sample(format!("{name} {descr}"));
                 match got {
                     Err(p) => rep.viol(idx, "panic", format!("{name} panicked: {p} | {descr}")),
                     Ok(t) => tree_fn_check(rep, idx, &name, &t, dim, want.as_ref(), &pts, &descr),
@@ -864,7 +865,7 @@ fn gen_net(rng: &mut Rng, d: usize, sigm: bool) -> (Vec<Layer>, Vec<L>, usize) {
 }
 
 pub fn distill(rep: &mut Report, tier: Tier) {
-    let cases = if tier == Tier::Quick { 250 } else { 4000 };
+    let cases = if tier == Tier::Quick { 3000 } else { 60000 };
     rep.rule = "seeded networks: 1-2 linear layers (widths 1-2, weights in {-1,0,1/2,1}) followed per neuron by ReLU / leaky ReLU(1/2) / hard tanh / nothing (hard sigmoid in the last layer only: its sixths are not exactly representable), optional argmax / class head, with no precondition or a polytope precondition (from_poly without else-branch); afftree_from_layers vs the exact network function on the half-integer lattice: equal value inside the precondition, undefined outside, breakpoints and ties included (hard-sigmoid cases compared in f64 with 1e-9 tolerance); non-trivial: network has an activation".into();
     rep.bound = format!("{cases} seeded networks, input dims in {{1,2}}");
     for idx in 1..=cases as u64 {
@@ -945,7 +946,7 @@ pub fn distill(rep: &mut Report, tier: Tier) {
 }
 
 pub fn arch(rep: &mut Report, tier: Tier) {
-    let cases = if tier == Tier::Quick { 300 } else { 4000 };
+    let cases = if tier == Tier::Quick { 3000 } else { 40000 };
     rep.rule = "seeded sequences of Architecture builder calls (valid and invalid: wrong input width, index out of range, argmax on width 1), shadow shape model: accepted iff dimension-compatible, Err leaves the architecture unchanged, current_shape == output width of the layers so far; every accepted architecture distills without panic; for every split point k the trees of extract_range(0,k) and extract_range(k,n) compose to the tree of the whole (exact, on the lattice); layer files: npz round trip incl. >= 11 layers (index order) with relu / hard_tanh / hard_sigmoid markers; non-trivial: sequence contains a rejected call and an accepted activation".into();
     rep.bound = format!("{cases} seeded call sequences of length <= 6, widths 1..=2; 12 layer files");
     for idx in 1..=cases as u64 {
